@@ -400,7 +400,13 @@ impl Worker {
             Err(()) => {
                 // the panic message was recorded by the hook
                 out.panic = Some(crate::take_panic_msg());
-                out.panic_loc = vhcore::take_panic_loc();
+                out.panic_loc = {
+                    // locations relative to the repository root, so that class keys are the same in
+                    // /repo and in a lab worktree
+                    let loc = vhcore::take_panic_loc();
+                    let root = format!("{}/", vhcore::repo_root().to_string_lossy());
+                    loc.strip_prefix(&root).map(|s| s.to_string()).unwrap_or(loc)
+                };
                 // engines may be poisoned by the unwinding: drop the context
                 if spec.release {
                     self.release = None;
